@@ -1,3 +1,5 @@
+import CC.Props.C01
+import CC.Props.C02
 import CC.Model.Sym
 import CC.Lemmas.Rev
 import CC.Generated.Consts
@@ -92,5 +94,112 @@ theorem labels_match_source : CC.Generated.labelsAvailable = true →
 theorem header_secret_ne_metadata_key (seed : Nat) :
     (⟨seed, labelHdrSecret⟩ : DKey) ≠ ⟨seed, labelHdrKey⟩ := by
   intro h; injection h with _ h2; revert h2; decide
+
+end CC.Props.C12
+
+/-! ## end to end, over every history
+
+The layer theorems above take "the key decapsulates" as a hypothesis; composed with the
+reachable-world theorems of C01 / C02 they speak about the API: in **any** world reachable from
+`setup`, a key just generated for policy `u` and a ciphertext / header just made under the current
+public key for policy `e`. -/
+
+namespace CC.Props.C12
+open CC
+
+/-- an authorised key decrypts a PKE ciphertext to the exact plaintext -/
+theorem pke_authorized_reachable (w : World) (hw : Reachable w) (u e : AP)
+    (hu : Spec.policyWf w.msk.structure_ u = true) (he : Spec.policyWf w.msk.structure_ e = true)
+    (ru re : List Right) (hru : w.msk.structure_.uskRights u = .ok ru) (hre : w.msk.mpk.structure_.encRights e = .ok re)
+    (n n' : Rng) (usk : Usk) (ptx : Bytes) (x : XEnc) (c : Sealed)
+    (hk : (uskKeygen w.msk ru n).1 = .ok usk) (hen : (pkeEncrypt w.msk.mpk re ptx n').1 = .ok (x, c))
+    (hcov : Spec.covers w.msk.structure_ u e = true) : pkeDecrypt usk (x, c) = .ok (some ptx) := by
+  unfold pkeEncrypt at hen
+  rcases he' : encaps w.msk.mpk re n' with ⟨res, n''⟩
+  rw [he'] at hen
+  cases res with
+  | error err => simp at hen
+  | ok v =>
+    obtain ⟨seed, x0⟩ := v
+    simp only [Except.ok.injEq, Prod.mk.injEq] at hen
+    obtain ⟨rfl, rfl⟩ := hen
+    have hen' : (encaps w.msk.mpk re n').1 = .ok (seed, x0) := by rw [he']
+    have hd := C01.authorized_opens_reachable w hw u e hu he ru re hru hre n n' usk seed x0 hk hen' hcov
+    simp [pkeDecrypt, hd, aeOpen, aeSeal]
+
+/-- an unauthorised key gets `not authorized`, never data -/
+theorem pke_unauthorized_reachable (w : World) (hw : Reachable w) (u e : AP)
+    (hu : Spec.policyWf w.msk.structure_ u = true) (he : Spec.policyWf w.msk.structure_ e = true)
+    (ru re : List Right) (hru : w.msk.structure_.uskRights u = .ok ru) (hre : w.msk.mpk.structure_.encRights e = .ok re)
+    (n n' : Rng) (usk : Usk) (ptx : Bytes) (x : XEnc) (c : Sealed)
+    (hk : (uskKeygen w.msk ru n).1 = .ok usk) (hen : (pkeEncrypt w.msk.mpk re ptx n').1 = .ok (x, c))
+    (hcov : Spec.covers w.msk.structure_ u e = false) : pkeDecrypt usk (x, c) = .ok none := by
+  unfold pkeEncrypt at hen
+  rcases he' : encaps w.msk.mpk re n' with ⟨res, n''⟩
+  rw [he'] at hen
+  cases res with
+  | error err => simp at hen
+  | ok v =>
+    obtain ⟨seed, x0⟩ := v
+    simp only [Except.ok.injEq, Prod.mk.injEq] at hen
+    obtain ⟨rfl, rfl⟩ := hen
+    have hen' : (encaps w.msk.mpk re n').1 = .ok (seed, x0) := by rw [he']
+    have hd := C02.unauthorized_gets_nothing_reachable w hw u e hu he ru re hru hre n n' usk seed x0 hk hen' hcov
+    simp [pkeDecrypt, hd]
+
+/-- an authorised key opens a header to the exact metadata (absent, empty or not) and to the very
+secret that generation returned, when given authentication data with the same content (absent and
+empty being the same) -/
+theorem header_authorized_reachable (w : World) (hw : Reachable w) (u e : AP)
+    (hu : Spec.policyWf w.msk.structure_ u = true) (he : Spec.policyWf w.msk.structure_ e = true)
+    (ru re : List Right) (hru : w.msk.structure_.uskRights u = .ok ru) (hre : w.msk.mpk.structure_.encRights e = .ok re)
+    (n n' : Rng) (usk : Usk) (md ad ad' : Option Bytes) (sec : DKey) (hd : Header)
+    (hk : (uskKeygen w.msk ru n).1 = .ok usk) (hg : (hdrGenerate w.msk.mpk re md ad n').1 = .ok (sec, hd))
+    (hcov : Spec.covers w.msk.structure_ u e = true) (had : adBytes ad' = adBytes ad) :
+    hdrDecrypt usk hd ad' = .ok (some (sec, md)) := by
+  unfold hdrGenerate at hg
+  rcases he' : encaps w.msk.mpk re n' with ⟨res, n''⟩
+  rw [he'] at hg
+  cases res with
+  | error err => simp at hg
+  | ok v =>
+    obtain ⟨seed, x0⟩ := v
+    have hen' : (encaps w.msk.mpk re n').1 = .ok (seed, x0) := by rw [he']
+    have hdc := C01.authorized_opens_reachable w hw u e hu he ru re hru hre n n' usk seed x0 hk hen' hcov
+    cases md with
+    | none =>
+      simp only [Except.ok.injEq, Prod.mk.injEq] at hg
+      obtain ⟨rfl, rfl⟩ := hg
+      simp [hdrDecrypt, hdc]
+    | some m =>
+      simp only [Except.ok.injEq, Prod.mk.injEq] at hg
+      obtain ⟨rfl, rfl⟩ := hg
+      simp [hdrDecrypt, hdc, aeOpen, aeSeal, had]
+
+/-- an unauthorised key learns nothing from a header -/
+theorem header_unauthorized_reachable (w : World) (hw : Reachable w) (u e : AP)
+    (hu : Spec.policyWf w.msk.structure_ u = true) (he : Spec.policyWf w.msk.structure_ e = true)
+    (ru re : List Right) (hru : w.msk.structure_.uskRights u = .ok ru) (hre : w.msk.mpk.structure_.encRights e = .ok re)
+    (n n' : Rng) (usk : Usk) (md ad ad' : Option Bytes) (sec : DKey) (hd : Header)
+    (hk : (uskKeygen w.msk ru n).1 = .ok usk) (hg : (hdrGenerate w.msk.mpk re md ad n').1 = .ok (sec, hd))
+    (hcov : Spec.covers w.msk.structure_ u e = false) : hdrDecrypt usk hd ad' = .ok none := by
+  unfold hdrGenerate at hg
+  rcases he' : encaps w.msk.mpk re n' with ⟨res, n''⟩
+  rw [he'] at hg
+  cases res with
+  | error err => simp at hg
+  | ok v =>
+    obtain ⟨seed, x0⟩ := v
+    have hen' : (encaps w.msk.mpk re n').1 = .ok (seed, x0) := by rw [he']
+    have hdc := C02.unauthorized_gets_nothing_reachable w hw u e hu he ru re hru hre n n' usk seed x0 hk hen' hcov
+    cases md with
+    | none =>
+      simp only [Except.ok.injEq, Prod.mk.injEq] at hg
+      obtain ⟨rfl, rfl⟩ := hg
+      simp [hdrDecrypt, hdc]
+    | some m =>
+      simp only [Except.ok.injEq, Prod.mk.injEq] at hg
+      obtain ⟨rfl, rfl⟩ := hg
+      simp [hdrDecrypt, hdc]
 
 end CC.Props.C12
